@@ -231,7 +231,7 @@ class C15(Property):
         cfg = gen.swarm_cfg(rng, off=("shape_change", "nocache", "effects"))
         cfg["n_internal"] = rng.randint(2, 5)
         spec = gen.prune(gen.gen_spec(rng, cfg))
-        dg = U.DictGen(rng, cfg)
+        dg = U.DictGen(rng, cfg, no_list_keys=gen.hashable_required_keys(spec))
         base = dg.fresh()
         per = {}
         for i in range(case["nthreads"]):
